@@ -44,7 +44,9 @@ def sym_lattice(ctx, name='lat', lat_id=0):
     for i in range(3):
         ctx.assume(z3.And(lengths[i] > 0, lengths[i] * lengths[i] == m[i][0] * m[i][0] + m[i][1] * m[i][1] + m[i][2] * m[i][2]),
                    tag='Lattice.lengths[i] = |row i of the matrix| > 0')
-    lat = SObj('Lattice', matrix=mat, _id=lat_id, _m=m, volume=vol, lengths=tuple(lengths), abc=tuple(lengths))
+    params = tuple(z3.Real(f'{name}_param{i}') for i in range(6))
+    lat = SObj('Lattice', matrix=mat, _id=lat_id, _m=m, volume=vol, lengths=tuple(lengths), abc=tuple(lengths),
+               parameters=params, _orient='arbitrary', _gid=lat_id)
     mindist_axioms(ctx, lat_id)
     return lat
 
@@ -91,7 +93,9 @@ def lattice_get_cartesian_coords(interp, line, lat, f):
             term = binop('*', V.to_real(Ff(*lead, k)), _tab(m, k, c))
             tot = term if tot is None else binop('+', tot, term)
         return tot
-    return STensor(F.shape, fn, 'real')
+    out = STensor(F.shape, fn, 'real')
+    out.cart_of = (F, lat)
+    return out
 
 
 def install_world(unit):
